@@ -43,6 +43,8 @@ def gen_cases(rng, tier):
         cases.append({'kind': 'observer', 'sizes': [3, 5], 'obs': obs, 'suffix': 'join_inner', 'prefix': 'empty_first'})
     for n_ in (1, 3, 7, 30):
         cases.append({'kind': 'observer', 'sizes': [n_], 'obs': 'printer', 'suffix': 'mutate', 'prefix': 'none'})
+    for obs in ('stream', 'checkpoint'):
+        cases.append({'kind': 'observer', 'sizes': [3], 'obs': obs, 'suffix': 'none', 'prefix': 'surrogate'})
     # a later step that stops reading early, behind every observer
     for obs in OBS:
         cases.append({'kind': 'observer', 'sizes': [5, 3], 'obs': obs, 'suffix': 'take2', 'prefix': 'none', **({'odd': []} if obs == 'dump_noforce' else {})})
@@ -134,6 +136,9 @@ def run_impl(case):
             p.append(DF.add_field('p', 'string', 'x'))
         if case['prefix'] == 'row_fn':
             p.append(eval('lambda row: _f(row)', {'_f': _rowfn}))
+        if case['prefix'] == 'surrogate':
+            # a legal str with lone surrogates (what os.fsdecode gives for undecodable bytes) and other awkward characters
+            p.append(DF.add_field('s', 'string', 'r\udce9sum\udce9 \u2028 \x00 \U0001d11e'))
         if case['prefix'] == 'empty_first':
             p.append(DF.filter_rows(condition=lambda r: False, resources=names[0]))
         for j in [j for j in case.get('odd', []) if j < len(names)]:
@@ -204,7 +209,9 @@ def run_impl(case):
     out = {}
     try:
         dp0, rows0 = run(prefix() + suffix_steps(case, names))
-        dp1, rows1 = run(prefix() + [observer()] + suffix_steps(case, names), count=True)
+        # (after a finalizer that reports the stats, a later step contributes stats of its own: they are not the finalizer's business)
+        later = [DF.update_stats({'later': True})] if case['obs'] == 'finalizer_stats' else []
+        dp1, rows1 = run(prefix() + [observer()] + later + suffix_steps(case, names), count=True)
         dpP, rowsP = run(prefix())
         stamps = case['obs'] in ('dump', 'zip', 'finalizer_stats', 'dump_noforce')
         out['down_same_rows'] = rows_enc_l(rows1) == rows_enc_l(rows0)
@@ -273,7 +280,8 @@ def run_impl(case):
             out['total_delivered'] = delivered_count[0]
             if o == 'finalizer_stats':
                 st = state.get('stats_seen') or {}
-                out['stats_seen'] = {'seen': st.get('seen'), 'count_of_rows': st.get('count_of_rows'), 'has_hash': st.get('hash') is not None}
+                out['stats_seen'] = {'seen': st.get('seen'), 'count_of_rows': st.get('count_of_rows'), 'has_hash': st.get('hash') is not None,
+                                     'later': st.get('later')}
     except Exception as e:
         c = e
         while type(c).__name__ == 'ProcessorError' and getattr(c, 'cause', None) is not None:
@@ -332,6 +340,8 @@ def oracle(case, out):
         ss = out.get('stats_seen') or {}
         if ss.get('seen') is not True or ss.get('count_of_rows') != sum(want) or not ss.get('has_hash'):
             return 'finalizer was handed stats %r; when the last row has passed the upstream dumper has counted %d rows' % (ss, sum(want))
+        if ss.get('later') is not None:
+            return 'finalizer was handed stats contributed by a step placed after it (%r)' % (ss,)
     if o in ('finalizer', 'finalizer_stats'):
         if len(out['calls']) != 1:
             return 'finalizer fired %d times' % len(out['calls'])
